@@ -1,21 +1,19 @@
 /-
   C06 — parse then serialize is lossless and reaches a fixpoint.
 
-  Full statement (kept visible): for every well-formed text `t` with tree `j = docTree t`, the text
-  `render j` written by the serializer model (Impl/Ser.lean, C05) satisfies `docTree (render j) = j`
-  (same nesting, order, duplicates, strings; numbers by literal), hence `render (docTree (render j)) =
-  render j`; with sort_keys the members are the same multiset in ascending key order, equal keys
-  in source order.
-
-  Proved here: the string part of losslessness against the real strict specification
-  (`string_roundtrip`: the quoted literal the serializer writes for ANY bytes decodes back to
-  exactly those bytes, wherever it stands), and the sort_keys part (permutation, ascending,
-  stable, recursively).  What is missing for the full statement is the container / number
-  induction over `Spec.tree` (`render_parses_back`); that part is covered by the byte-exact
-  comparison of the raw-number outputs with `render (docTree t)` on every case, by re-parsing and
-  by the second pass of the implementation (see the check).
+  `RJ` is a tree to be written (numbers by their literal), `RJ.render` its compact text (what the
+  serializer writes for a DOM: C05 proves the serializer emits it), `RJ.jsonAt t 0` the
+  specification's tree with the same nesting, order, duplicates, strings and number spans.
+    * `render_parses_back`: for EVERY well-formed tree the strict RFC specification reads the
+      rendering back as exactly that tree (`docTree (render t) = t`): losslessness;
+      (the second pass of the implementation is compared byte for byte by the check);
+    * `string_lossless` / `string_fixpoint`: the string part, wherever the literal stands;
+    * `sorted_is_permutation / ascending / stable`: the sort_keys build.
+  Well-formedness only asks every number literal to be one JSON number before a delimiter
+  (`NumOK`, shown for single digits here; the implementation's number texts are C08's subject).
 -/
 import SonicModel.Lemmas.RoundTrip
+import SonicModel.Lemmas.TreeRoundTrip
 import SonicModel.Lemmas.SortProof
 import SonicModel.Thm.C05
 namespace Sonic.Thm.C06
@@ -23,7 +21,7 @@ open Sonic Spec
 
 /-- **strings are lossless**: for any bytes `s`, the strict specification reads `"escape s"` back as
     exactly `s`, ending just after the closing quote, whatever precedes and follows the literal -/
-theorem string_lossless_partial (s pre suf : List UInt8) :
+theorem string_lossless (s pre suf : List UInt8) :
     stringS false (pre ++ quoted s ++ suf).toArray (pre.length + 1) = some (s, pre.length + (quoted s).length) := by
   have h := string_roundtrip s (pre ++ [34]) suf
   have e : pre ++ quoted s ++ suf = pre ++ [34] ++ escape s ++ 34 :: suf := by simp [quoted, List.append_assoc]
@@ -35,9 +33,25 @@ theorem string_lossless_partial (s pre suf : List UInt8) :
 /-- and the literal is grammatical at the weaker strength too (what the skipping entry points check) -/
 theorem string_fixpoint (s : List UInt8) :
     (stringS false (quoted s).toArray 1).map (fun r => quoted r.1) = some (quoted s) := by
-  have h := string_lossless_partial s [] []
+  have h := string_lossless s [] []
   simp only [List.nil_append, List.append_nil, List.length_nil, Nat.zero_add] at h
   rw [h]; rfl
+
+/-- **parse ∘ print = id**: the strict specification reads the compact rendering of every well-formed
+    tree back as exactly that tree (nesting, order, duplicated keys, strings, number literals) -/
+theorem render_parses_back (t : RJ) (h : t.WF) : docTree false t.render.toArray = some (t.jsonAt 0) :=
+  doc_roundtrip t h
+
+/-- … wherever the rendering stands inside a larger text (before a delimiter, with enough fuel) -/
+theorem render_parses_back_in_context (t : RJ) (h : t.WF) (pre suf : List UInt8) (f : Nat)
+    (hd : isDelim suf.head?) (hf : t.need ≤ f) :
+    tree false f (pre ++ t.render ++ suf).toArray pre.length = some (t.jsonAt pre.length, pre.length + t.render.length) := by
+  apply reads_back t h (pre ++ t.render ++ suf) pre.length f ⟨pre, suf, rfl, rfl⟩ _ hf
+  have e : (pre ++ t.render ++ suf).toArray[pre.length + t.render.length]? = suf.head? := by
+    simp only [List.getElem?_toArray]
+    rw [List.getElem?_append_right (by simp), List.head?_eq_getElem?]
+    simp
+  rw [e]; exact hd
 
 /-- sort_keys: the members of an object are a permutation of the source members … -/
 theorem sorted_is_permutation {α} (ms : List (List UInt8 × α)) : (sortStable ms).Perm ms := sortStable_perm ms
@@ -47,10 +61,15 @@ theorem sorted_is_ascending {α} (ms : List (List UInt8 × α)) : Ascending (sor
 theorem sorted_is_stable {α} (ms : List (List UInt8 × α)) (k : List UInt8) :
     (sortStable ms).filter (fun x => x.1 = k) = ms.filter (fun x => x.1 = k) := sortStable_filter ms k
 
-/-! non-vacuity -/
+/-! non-vacuity: a tree with a duplicated key, an escaped string, numbers and empty containers -/
+def sample : RJ := .obj [([97], .arr [.num [55], .str [34, 10], .null]), ([97], .bool true), ([98], .obj []), ([], .arr [])]
+theorem sample_wf : sample.WF := by
+  refine ⟨⟨numok_digit 55 (by decide) (by decide), trivial, trivial, trivial⟩, trivial, trivial, trivial, trivial⟩
+example : docTree false sample.render.toArray = some (sample.jsonAt 0) := render_parses_back sample sample_wf
+
 example : stringS false ([91] ++ quoted [97, 34, 10, 1, 0xC3, 0xA9] ++ [93]).toArray 2 =
     some ([97, 34, 10, 1, 0xC3, 0xA9], 1 + (quoted [97, 34, 10, 1, 0xC3, 0xA9]).length) :=
-  string_lossless_partial _ [91] [93]
+  string_lossless _ [91] [93]
 example : sortStable [([98], 1), ([97], 2), ([98], 3), ([97], 4)] = [([97], 2), ([97], 4), ([98], 1), ([98], 3)] := by decide
 
 end Sonic.Thm.C06
